@@ -1,2 +1,39 @@
-(** C20 — statements only; see Proofs/. *)
-From RRSS Require Import Base.Outcome.
+(** C20 — The command-line tool behaves exactly like the library on the same file.
+    The model takes the library's results as data; these theorems say how they are routed.
+    The weight of this property is on the correspondence (the real binary run as a process
+    against the library called on the same text): see DESIGN.md. *)
+From Coq Require Import List NArith.
+From RRSS Require Import Base.Chars Lint.Lint Cli.Cli Proofs.CliLaws.
+Import ListNotations.
+
+Theorem C20_cli_exec_stdout : forall out r, c_stdout (cli_exec out r) = out.
+Proof. exact cli_exec_stdout. Qed.
+
+Theorem C20_cli_exec_errors_to_stderr :
+  forall out m,
+  c_stderr (cli_exec out (LibParseError m)) = lit "Parse error: " ++ m ++ nl /\
+  c_stderr (cli_exec out (LibRuntimeError m)) = lit "Runtime error: " ++ m ++ nl /\
+  c_stderr (cli_exec out LibOk) = [].
+Proof. exact cli_exec_errors_to_stderr. Qed.
+
+Theorem C20_cli_lint_routes :
+  forall r ds,
+  match r with
+  | LibParseError m => c_stdout (cli_lint r ds) = [] /\ c_stderr (cli_lint r ds) = lit "Parse error: " ++ m ++ nl
+  | _ => c_stderr (cli_lint r ds) = [] /\
+         c_stdout (cli_lint r ds) = match ds with [] => lit "No lint issues found :)" | _ => flat_map cli_diag ds end
+  end.
+Proof. exact cli_lint_routes. Qed.
+
+Theorem C20_cli_parse_routes :
+  forall r t,
+  match r with
+  | LibParseError m => c_stdout (cli_parse r t) = [] /\ c_stderr (cli_parse r t) = lit "Parse error: " ++ m ++ nl
+  | _ => c_stdout (cli_parse r t) = t ++ nl /\ c_stderr (cli_parse r t) = []
+  end.
+Proof. exact cli_parse_routes. Qed.
+
+Theorem C20_cli_failure_nonzero : forall msg, c_exit (cli_failure msg) <> 0%N.
+Proof. exact cli_failure_nonzero. Qed.
+
+Print Assumptions C20_cli_exec_stdout.
